@@ -116,6 +116,7 @@ impl Outcome {
 
 thread_local! {
     static LAST_PANIC: RefCell<Option<(String, String)>> = const { RefCell::new(None) };
+    static IN_GUARD: std::cell::Cell<u32> = const { std::cell::Cell::new(0) };
 }
 static HOOK: Once = Once::new();
 
@@ -133,6 +134,9 @@ pub fn install_panic_hook() {
             } else {
                 "<non-string panic payload>".into()
             };
+            if IN_GUARD.with(|g| g.get()) == 0 {
+                eprintln!("MACHINERY: harness panic at {loc}: {msg}");
+            }
             LAST_PANIC.with(|p| *p.borrow_mut() = Some((msg, loc)));
         }));
     });
@@ -141,7 +145,10 @@ pub fn install_panic_hook() {
 pub fn guarded<T>(f: impl FnOnce() -> T) -> Result<T, (String, String)> {
     install_panic_hook();
     LAST_PANIC.with(|p| *p.borrow_mut() = None);
-    match catch_unwind(AssertUnwindSafe(f)) {
+    IN_GUARD.with(|g| g.set(g.get() + 1));
+    let r = catch_unwind(AssertUnwindSafe(f));
+    IN_GUARD.with(|g| g.set(g.get() - 1));
+    match r {
         Ok(v) => Ok(v),
         Err(_) => Err(LAST_PANIC
             .with(|p| p.borrow_mut().take())
